@@ -123,7 +123,7 @@ def m_x_Constant(self, st, n, k):
 BUILTIN_NAMES = {'map', 'StructUnpack', 'StructPack', 'StructUnpackFrom', 'len', 'isinstance', 'getattr', 'setattr', 'hasattr', 'callable', 'bool', 'int',
                  'list', 'reversed', 'range', 'sorted', 'zip', 'bytes', 'str', 'repr', 'type',
                  'max', 'min', 'bisect_right', 'bisect_left', 'tuple', 'dict', 'set', 'sum', 'all', 'any',
-                 'bin', 'ord', 'breakpoint', 'open', 'SourceFileLoader'}
+                 'bin', 'ord', 'breakpoint', 'open', 'SourceFileLoader', 'delattr'}
 
 
 def m_x_Name(self, st, n, k):
@@ -1389,6 +1389,20 @@ def m_bi_setattr(self, st, pos, kws, k):
         return self.with_raises(st, [(z3.Not(T.Val.is_VS(name.z)), 'TypeError')],
                                 lambda st: self.call_contract(st, c, [obj, nm, val], {}, None, k))
     raise Untranslated('setattr on %s' % obj.kind)
+
+
+def m_bi_delattr(self, st, pos, kws, k):
+    """delattr(obj, name) on a packet-like object: the slot is removed; AttributeError when it is not set"""
+    obj, name = pos
+    if isinstance(obj, VRef) and isinstance(name, (VStr, VDyn)):
+        nz = name.z if isinstance(name, VStr) else T.Val.sval(name.z)
+        has = self.slot_has(st, obj.z, nz)
+
+        def cont(st):
+            st.heap['has'] = z3.Store(st.heap['has'], obj.z, z3.Store(z3.Select(st.heap['has'], obj.z), nz, False))
+            return k(st, VNone())
+        return self.with_raises(st, [(z3.Not(has), 'AttributeError')], cont)
+    raise Untranslated('delattr on %s' % obj.kind)
 
 
 def m_bi_hasattr(self, st, pos, kws, k):
